@@ -80,6 +80,28 @@ HASH_CFGS = sorted([c for c in C07.CONFIGS["quick"] if c[0] == 2 and c[1] == 1 a
 N_NOKW = len([c for c in HASH_CFGS if c[4] == 0])  # quick tier: the configurations without **kw come first
 
 
+MULTI_PHRASE = ("learning rate. Default: 0.01. With momentum it defaults to 0.1",
+                "rate. Default value is 5. When tuned, defaults to 7",
+                "x defaults to\n3. Default: 4")
+
+
+def hashorder_extract(i, p0, p1, p2, p3):
+    """a description that contains SEVERAL announcement phrases: which one is read must not depend on the iteration order of any set"""
+    from doctrans.defaults_utils import extract_default
+
+    i = realize(i)
+    ndorder.PICKS[0] = ()
+    ref = (extract_default(MULTI_PHRASE[i]), extract_default(MULTI_PHRASE[i], emit_default_doc=False))
+    undo = ndorder.install(MODS)
+    try:
+        ndorder.PICKS[0] = (p0, p1, p2, p3)
+        got = (extract_default(MULTI_PHRASE[i]), extract_default(MULTI_PHRASE[i], emit_default_doc=False))
+    finally:
+        ndorder.PICKS[0] = ()
+        undo()
+    return got == ref
+
+
 def merge_order(p0, p1, p2):
     """ir_merge alone: the relative order of the appended signature-only names is source order for every set order"""
     from doctrans.parser_utils import ir_merge
@@ -316,6 +338,11 @@ def obligations(tier, seed):
                 "order, style %d; iteration order of every name set: picks p0<=%d, p1<=%d, p2<=%d (all orders of sets of <=%d names)"
                 % (lo, hi - 1, N, style, pmax[0], pmax[1], pmax[2], 3 if tier == "quick" else 4),
                 timeout=280 if tier == "quick" else 1800, path_timeout=100, funcs=FUNCS))
+    obs.append(Ob(name="hashorder_extract_default", params=[("i", "int"), ("p0", "int"), ("p1", "int"), ("p2", "int"), ("p3", "int")],
+                  pre=["0 <= i < %d" % len(MULTI_PHRASE), "0 <= p0 <= 3 and 0 <= p1 <= 2 and 0 <= p2 <= 1 and p3 == 0"],
+                  body="H.hashorder_extract(i, p0, p1, p2, p3)", witness=(0, 1, 0, 0, 0),
+                  bounds="extract_default on %d descriptions holding two different announcement phrases, under every iteration order of every "
+                  "set of <= 4 elements (picks symbolic)" % len(MULTI_PHRASE), timeout=150, funcs=["doctrans.defaults_utils.extract_default", "doctrans.pure_utils.location_within"]))
     obs.append(Ob(name="merge_order", params=[("p0", "int"), ("p1", "int"), ("p2", "int")],
                   pre=["0 <= p0 <= 2 and 0 <= p1 <= 1 and p2 == 0"], body="H.merge_order(p0, p1, p2)", witness=(1, 0, 0),
                   bounds="ir_merge of a docstring-side {b} with a signature-side {a,b,c,d}; every iteration order of the name sets",
